@@ -991,7 +991,7 @@ Theorem entry_offset_cases dbg uo en :
   | None => Err WUnsupportedCfiExpressionReference
   | Some u =>
       match nth_N (uo_entries u) en with
-      | None => Panic
+      | None => Err WUnsupportedExpressionForwardReference     (* id beyond the entries vector: reserved, never added *)
       | Some off =>
           if off =? 0 then Err WUnsupportedExpressionForwardReference
           else chk_sub 64 dbg off (uo_unit u)
